@@ -23,7 +23,7 @@ CLAIMED = {
         "technique": TECH_K,
     },
     "C03": {
-        "text": "Page selection of bounded queries: the limit handling of Collection::query_ids_from (verbatim slice; full Option<usize> domain: Some(0) => empty page, else min(limit.unwrap_or(1000),1000) >= 1) composed with ScanOrder::truncate on a concrete (len<=6 x 9 limits x both entry points) grid with symbolic u64 contents: the page is exactly the first (ascending) / last (descending) `limit` elements of the full ascending result. Bounded (grid). The set-algebra half of C03 is not under contract.",
+        "text": "Page selection of bounded queries: the limit handling of Collection::query_ids_from (verbatim slice; full Option<usize> domain: Some(0) => empty page, else min(limit.unwrap_or(1000),1000) >= 1) composed with ScanOrder::truncate on a concrete (len<=6 x 9 limits x both entry points) grid with symbolic u64 contents: the page is exactly the first (ascending) / last (descending) `limit` elements of the full ascending result. Bounded (grid). The visitor closure of the B-tree Field arm of filter_by_field_with (verbatim slice) composed with sort + truncate: the page is an end of the full ascending result whatever the key order of the ids (bounded: two keys) — this unit found a genuine defect, repaired by fix bed2241. The rest of the set-algebra half of C03 is not under contract.",
         "note": "Scope: page selection only.",
         "technique": TECH_K,
     },
